@@ -93,7 +93,7 @@ kind_to_target = dict(
     floor="math.floor({0})",
     copysign="math.copysign({0}, {1})",
     round=NotImplemented,
-    sign="(0 if {0} == 0 else math.copysign(1, {0}))",
+    sign="(0 if ({0}) == 0 else math.copysign(1, {0}))",
     truncate="math.trunc({0})",
     conjugate="({0}).conjugate()",
     real="({0}).real",
